@@ -38,6 +38,16 @@ func init() {
 		daemon.Register(name, func() { daemonBody(name) })
 	}
 	if daemon.Run() {
+		// the launcher is this program too: what it does between Run()
+		// returning and exiting (clean-up, log flush, exit hooks) is one more
+		// timing the harness chooses
+		if os.Getenv("ENV_DAEMON_FLAG") == "isLauncher" {
+			var p plan
+			if b, err := os.ReadFile(filepath.Join(os.Getenv("PW_BASE"), os.Getenv("ENV_DAEMON_NAME"), "plan.json")); err == nil {
+				json.Unmarshal(b, &p)
+			}
+			time.Sleep(time.Duration(p.LingerMs) * time.Millisecond)
+		}
 		os.Exit(0)
 	}
 }
@@ -48,6 +58,8 @@ type plan struct {
 	Name    string `json:"name"`
 	Group   int    `json:"group"` // launches with the same group number run concurrently
 	Burst   bool   `json:"burst,omitempty"`
+	// LingerMs: how long the launcher process stays alive after launch() returned
+	LingerMs int `json:"linger_ms,omitempty"`
 }
 
 func waitFile(path string, d time.Duration) bool {
@@ -429,7 +441,7 @@ func main() {
 			if burst {
 				k = "S1"
 			}
-			plans = append(plans, plan{Kind: k, Markers: r.next(6), Name: fmt.Sprintf("h%d", i), Group: group, Burst: burst})
+			plans = append(plans, plan{Kind: k, Markers: r.next(6), Name: fmt.Sprintf("h%d", i), Group: group, Burst: burst, LingerMs: []int{0, 0, 3, 40}[r.next(4)]})
 		}
 	}
 	var outs []outcome
@@ -472,7 +484,7 @@ func main() {
 		if groupSize[o.Plan.Group] > 1 {
 			st.Concurrent++
 		}
-		distinct[fmt.Sprintf("%s/%d/%d", o.Plan.Kind, o.Plan.Markers, groupSize[o.Plan.Group])] = true
+		distinct[fmt.Sprintf("%s/%d/%d/%d", o.Plan.Kind, o.Plan.Markers, groupSize[o.Plan.Group], o.Plan.LingerMs)] = true
 		if o.Infra != "" {
 			st.Infra = append(st.Infra, o.Plan.Kind+": "+o.Infra)
 		}
